@@ -6,7 +6,7 @@
 set -u
 HERE="$(cd "$(dirname "$0")/.." && pwd)"
 PAT="${1:-}"; TIER="${2:-quick}"
-ISO=/tmp/verif-iso
+ISO="${ISO:-/tmp/verif-iso}"
 mkdir -p "$ISO"
 if [ ! -d "$ISO/repo" ]; then git -C /repo worktree add --detach "$ISO/repo" HEAD -q || exit 2; fi
 git -C "$ISO/repo" checkout -q --detach "$(git -C /repo rev-parse HEAD)" 2>/dev/null; git -C "$ISO/repo" checkout -q -- .
